@@ -355,6 +355,49 @@ def scan_history_cases(run):
                         theorem="C05_plateau_grid")
 
 
+def plateau_then_plain_cases(run):
+    """a plateau search followed by a plain fit that does not restate the
+    interval: the plain fit uses the interval the caller gave (the stored
+    request is not rewritten by the search), exactly as on a fresh curve"""
+    n = 4 if run.tier == "quick" else 16
+    for i in range(n):
+        cols = base_curve(seed=450 + i, n_app=160, n_ret=50)
+        rx = [[-3e-6, 1e-6], [0, 0], [-2e-6, 1.5e-6], [0, 1e-6]][i % 4]
+        cfg = {"plateau-then-plain": i, "range_x": rx}
+        key = f"plateau-then-plain:{rx}:{450 + i}"
+        run.case(cfg, kind="plateau-then-plain")
+        try:
+            with warnings.catch_warnings():
+                warnings.simplefilter("ignore")
+                a = curves.make_indentation(cols)
+                a.fit_model(model_key="hertz_para", optimal_fit_edelta=True,
+                            optimal_fit_num_samples=9, range_x=list(rx))
+                stored = [float(v) for v in a.fit_properties["range_x"]]
+                a.fit_model(optimal_fit_edelta=False)
+                b = curves.make_indentation(cols)
+                b.fit_model(model_key="hertz_para", optimal_fit_edelta=False,
+                            optimal_fit_num_samples=9, range_x=list(rx))
+            why = None
+            if stored != [float(v) for v in rx]:
+                why = (f"after the plateau search the stored interval is "
+                       f"{stored}, the caller gave {rx}")
+            else:
+                ma = np.asarray(a["fit range"]).astype(bool)
+                mb = np.asarray(b["fit range"]).astype(bool)
+                if not np.array_equal(ma, mb):
+                    why = (f"the plain fit after a plateau search used "
+                           f"{int(ma.sum())} points, a fresh curve with the "
+                           f"same request {int(mb.sum())}")
+                elif a.fit_properties["xmin"] != b.fit_properties["xmin"] or \
+                        a.fit_properties["xmax"] != b.fit_properties["xmax"]:
+                    why = "xmin / xmax differ from a fresh curve's"
+        except BaseException as e:
+            why = f"raised {type(e).__name__}: {e}"
+        if why:
+            run.failing(SITE, key, f"{cfg}: {why}", payload={"kind": "rerun"},
+                        theorem="C05_mask_exact")
+
+
 def check(run):
     run.sources = common.source_digests(["src/nanite/fit.py"])
     gen_all.generate_all()
@@ -378,6 +421,7 @@ def check(run):
     check_relative(run)
     check_plateau(run)
     scan_history_cases(run)
+    plateau_then_plain_cases(run)
     known_plateau_findings(run)
     run.rule = ("intervals with boundaries on sample abscissae, one ulp "
                 "beside them, inverted, one-sided, zero-width, empty x segment"
